@@ -78,6 +78,11 @@ def timestep (d : Nat → Bool → Bool) (s : CSampler) : CSampler := diagStep d
 def setCutoff (c : Nat) (s : CSampler) : CSampler :=
   { cutoff := c, occ := growOcc s.occ c }
 
+/-- `Qmc::increase_cutoff_to(c)`: `set_cutoff(max(self.cutoff, c))` — a no-op on the sampler field
+when `c` is not above the current cutoff (only the generic sampler has this call; the Ising
+sampler and the tempering trait's `set_op_cutoff` only offer the raw `set_cutoff`). -/
+def increaseCutoffTo (c : Nat) (s : CSampler) : CSampler := setCutoff (max s.cutoff c) s
+
 /-- a run: one decision function per time step -/
 def run (ds : List (Nat → Bool → Bool)) (s : CSampler) : CSampler := ds.foldl (fun s d => timestep d s) s
 
@@ -113,7 +118,7 @@ inductive PairAction where
   | stepA (d : Nat → Bool → Bool)
   | stepB (d : Nat → Bool → Bool)
   | swap
-  | raiseA (c : Nat)            -- `increase_cutoff_to(c)` / `set_cutoff(c)` with `c ≥ cutoff`
+  | raiseA (c : Nat)            -- `increase_cutoff_to(c)` for ANY `c` (below, equal, above); `set_cutoff(c)` with `c ≥ cutoff`
   | convertA (nvars : Nat)      -- `a := a.into_qmc()`
   | freshB (c : Nat)            -- partner replaced by a freshly built Ising sampler with cutoff `c`
 
@@ -121,7 +126,7 @@ def applyPair (p : CSampler × CSampler) : PairAction → CSampler × CSampler
   | .stepA d => (CSampler.timestep d p.1, p.2)
   | .stepB d => (p.1, CSampler.timestep d p.2)
   | .swap => swapSamplers p.1 p.2
-  | .raiseA c => (CSampler.setCutoff (max p.1.cutoff c) p.1, p.2)
+  | .raiseA c => (CSampler.increaseCutoffTo c p.1, p.2)
   | .convertA nv => (convertSampler nv p.1, p.2)
   | .freshB c => (p.1, CSampler.newIsing c)
 
